@@ -11,7 +11,8 @@
    `zero` line, where they answer 0.0 WITHOUT an error for one element: the corner `value 0 = failure signal` of the code
    (theorems cp_zero_product_witness, refr_re_zero_witness, refr_im_zero_witness) replayed on the real functions.
 
-   Line protocol (strings %-escaped: every byte outside [A-Za-z0-9.()_-] is %XX, the empty string is `%`; doubles x<16 hex>):
+   Line protocol (strings %-escaped: every byte outside [A-Za-z0-9.()_-] is %XX, the empty string is `%`, the token `%00NULL` is the
+   NULL pointer (passed as such to the function under study and to the two lookups); doubles x<16 hex>):
      tables
          -> `sym Z:Symbol ...` (Z with an atomic weight) and `nist <name> ...`
      <fn> <E|N> <compound> <double>...
@@ -261,10 +262,11 @@ int main(void) {
     o += z;
     if (nt < o + 3) { printf("bad-op\n"); continue; }
     unesc(tok[o + 2], buf);
-    if (o > z && !set_inj(tok[z + 1], tok[z + 2], buf)) { printf("bad-op\n"); continue; }
+    int null_compound = !strcmp(tok[o + 2], "%00NULL");
+    if (o > z && (null_compound || !set_inj(tok[z + 1], tok[z + 2], buf))) { printf("bad-op\n"); continue; }
     double a[4]; int na = 0;
     for (int i = o + 3; i < nt && na < 4; i++) a[na++] = un_d(tok[i]);
-    do_call(tok[o], tok[o + 1], buf, a, na);
+    do_call(tok[o], tok[o + 1], null_compound ? NULL : buf, a, na);
     inj_on = 0; zero_fi = zero_cs = 0;
   }
   fflush(stdout);
